@@ -209,6 +209,23 @@ pub struct RawHyg {
 fn raw_hyg() -> impl Strategy<Value = RawHyg> {
     (gen::raw_grammar(), proptest::collection::vec(any::<u16>(), 16..96)).prop_map(|(mut grammar, choices)| {
         grammar.source |= 2;
+        // shapes that matter for the emitted definitions: one fieldset in six becomes all-`_` (unit-like collapse),
+        // one in six keeps exactly one used field among several
+        for (i, nt) in grammar.nts.iter_mut().enumerate() {
+            for (j, v) in nt.variants.iter_mut().enumerate() {
+                match choices[(i * 5 + j * 11 + 7) % choices.len()] % 6 {
+                    0 => v.fields.iter_mut().for_each(|f| f.1 = false),
+                    1 => {
+                        let keep = choices[(i + j + 9) % choices.len()] as usize;
+                        let n = v.fields.len().max(1);
+                        for (k, f) in v.fields.iter_mut().enumerate() {
+                            f.1 = k == keep % n;
+                        }
+                    }
+                    _ => {}
+                }
+            }
+        }
         RawHyg { grammar, choices }
     })
 }
